@@ -420,7 +420,7 @@ func firstUse(v ssa.Value) ssa.Instruction {
 func componentModeAfterOpen(p *core.Prog, r *core.Report, h *core.RuleH) {
 	fields := map[string]bool{"(pkg/local_object_storage/metabase.DB).mode": true, "(pkg/local_object_storage/writecache.cache).mode": true}
 	openers := map[string]bool{
-		"(*pkg/local_object_storage/metabase.DB).openBolt": true, "(*pkg/local_object_storage/metabase.DB).Open": true, "(*pkg/local_object_storage/metabase.DB).Init": true,
+		"(*pkg/local_object_storage/metabase.DB).openBolt": true, "(*pkg/local_object_storage/metabase.DB).Open": true, "(*pkg/local_object_storage/metabase.DB).Init": true, "(*pkg/local_object_storage/metabase.DB).initWritable": true,
 		"(*pkg/local_object_storage/writecache.cache).openStore": true,
 	}
 	degraded, okD := p.ConstInt("pkg/local_object_storage/shard/mode.Degraded")
